@@ -202,6 +202,17 @@ def invariants(case, real):
             if st["ret"] is True:
                 if len(st["items"]) != len(prev["items"]) - 1 or st["gold"] < prev["gold"]:
                     fail("sell answered True but item/gold did not change together")
+                else:
+                    # the gold gained is the sell price of the item that actually left the inventory
+                    k = next((j for j, (x, y) in enumerate(zip(prev["items"], st["items"])) if x != y), len(st["items"]))
+                    gone = prev["items"][k]
+                    if prev["items"][:k] + prev["items"][k + 1:] != st["items"] or gone[0] != op["n"]:
+                        fail("sell answered True but the inventory did not lose exactly one item of that name")
+                    else:
+                        num, den = case["shop"]["rate"]
+                        want = int(gone[2] * (num / den))
+                        if st["gold"] - prev["gold"] != want:
+                            fail(f"sold {gone[0]} worth {gone[2]} (sell-back {num}/{den}): gained {st['gold'] - prev['gold']} gold, its price is {want}")
             elif st["gold"] != prev["gold"] or st["items"] != prev["items"]:
                 fail("failed sell changed gold or the inventory")
         t, c, op_, topics, ev = st["rel"]
